@@ -37,6 +37,8 @@ def compare(cmp, impl, model):
     return None
 
 CFG = dict(
+    src_tables=True,   # tools/gen_tables.py + Proofs/SrcTablesRoll.v: tables regenerated from the Rust source on every run
+    src_tables_proofs=["Proofs/SrcTablesRoll.vo"],   # the rolling-family part of the generated tables (min_periods shapes)
     bins=["c05"],
     imports=["Run.RunC01", "Run.RunC03", "Run.RunC04"],
     rule="40 (thorough 260) structured series (lengths 0, 1, 2, 3 always, then 1..20; dyadic values; 9 null patterns; uniform / "
